@@ -67,8 +67,9 @@ def parts(tier, seed=0):
         ctxs += [(G.NAMES2, [R, O]), (G.NAMES1, [RM])]
     for k in G.all_option_kinds():
         for nm, ak in ctxs:
-            a.append((G.mk_spec(nm, [k], ak), dict(dom_n=3 if q else 5, arg_dom_n=1, multi_len=2 if q else 3, arg_multi_len=2,
-                                                   with_null=True)))
+            a.append((G.mk_spec(nm, [k], ak), dict(dom_n=3 if q else 5, arg_dom_n=1, multi_len=2, arg_multi_len=2, with_null=True)))
+        if not q and k[0] == "multi":  # three repetitions of a multi-valued option
+            a.append((G.mk_spec(G.NAMES0, [k], [R]), dict(dom_n=1, arg_dom_n=1, multi_len=3, arg_multi_len=1)))
     P.append(("A:each-option-kind-alone", a))
 
     # B: all ordered pairs of structural kinds: grouping, value lookahead next to another option, orderings
@@ -77,7 +78,7 @@ def parts(tier, seed=0):
         for k2 in STRUCT:
             b.append((G.mk_spec(G.NAMES0, [k1, k2], [R]), dict(dom_n=2, arg_dom_n=1, multi_len=1 if q else 2, arg_multi_len=1)))
             b.append((G.mk_spec(G.NAMES1, [k1, k2], [R, M]),
-                      dict(dom_n=1 if q else 2, arg_dom_n=1, multi_len=1 if q else 2, arg_multi_len=1)))
+                      dict(dom_n=2, arg_dom_n=1, multi_len=1 if q else 2, arg_multi_len=1)))
             if q and "multi" in (k1[0], k2[0]):  # repeated multi-valued options next to another option
                 b.append((G.mk_spec(G.NAMES0, [k1, k2], [R]), dict(dom_n=1, arg_dom_n=1, multi_len=2, arg_multi_len=1)))
     # ... and every pair that involves a typed kind
@@ -97,10 +98,12 @@ def parts(tier, seed=0):
                 # for all-string shapes the argument domain also holds a word that IS a command name / alias of the format
                 # (legal in front of `--` only when that name is spelled, behind `--` always)
                 ex = ([] if not plain or not nm else ["add"] if nm is G.NAMES2 else ["sv"])
-                c.append((G.mk_spec(nm, [], aks), dict(dom_n=1, arg_dom_n=2 if q else 3, multi_len=1, arg_multi_len=2, arg_extra=ex)))
-                if plain or not q:
+                singles = len([m for m in shape if "multi" not in m])
+                nd = 3 if (not q and singles <= 2) else 2  # values per argument
+                c.append((G.mk_spec(nm, [], aks), dict(dom_n=1, arg_dom_n=nd, multi_len=1, arg_multi_len=2, arg_extra=ex)))
+                if plain or not q or nm is G.NAMES0:
                     c.append((G.mk_spec(nm, [G.opt_kind("flag"), G.opt_kind("opt")], aks),
-                              dict(dom_n=1, arg_dom_n=1 if q else 2, multi_len=1, arg_multi_len=2)))
+                              dict(dom_n=1, arg_dom_n=1 if q or not plain else 2, multi_len=1, arg_multi_len=2)))
     P.append(("C:argument-shapes", c))
 
     # D: one format split between a base format and the derived format in all ways
@@ -134,9 +137,11 @@ def parts(tier, seed=0):
     # T: all ordered triples of short-named structural kinds (three-letter groups, three options around one positional)
     t = []
     for ks in itertools.product(SHORTED, repeat=3):
-        t.append((G.mk_spec(G.NAMES0, list(ks), [R]), dict(dom_n=1, arg_dom_n=1, multi_len=1 if q else 2, arg_multi_len=1)))
+        t.append((G.mk_spec(G.NAMES0, list(ks), [R]), dict(dom_n=1, arg_dom_n=1, multi_len=1, arg_multi_len=1)))
     if not q:
         for ks in itertools.product(STRUCT, repeat=3):
+            t.append((G.mk_spec(G.NAMES0, list(ks), [R]), dict(dom_n=1, arg_dom_n=1, multi_len=1, arg_multi_len=1)))
+        for ks in itertools.product(SHORTED, repeat=3):
             t.append((G.mk_spec(G.NAMES1, list(ks), [R, M]), dict(dom_n=1, arg_dom_n=1, multi_len=1, arg_multi_len=1)))
     P.append(("T:option-triples", t))
     return P
